@@ -68,18 +68,20 @@ def _cfg(ctx, name, dom, procs, bounds, ghost=False, hist=False, init="Init", nx
 
 def model_check(ctx):
     thorough = ctx.tier == "thorough"
+    # MaxOps = 60 is never reached where the call log is off: those graphs are the COMPLETE finite state
+    # spaces for the domain constants (and their sizes do not depend on TLC's multi-worker BFS order)
     runs = [  # name, dom, procs, bounds, ghost, coverage
-        ("attrs", (2, 2, 1, 1, 1, 1, 1, 1), "s", (2, 0, 0, 0, 0, 4), False, False),
-        ("events-links", (1, 2, 1, 1, 1, 1, 1, 1), "b", (1, 1, 1, 1, 1, 3), False, True),
-        ("three-processors", (1, 1, 2, 1, 1, 1, 1, 1), "sbs", (0, 0, 0, 0, 0, 5), False, False),
+        ("attrs", (2, 2, 1, 1, 1, 1, 1, 1), "s", (2, 0, 0, 0, 0, 60), False, False),
+        ("events-links", (1, 2, 1, 1, 1, 1, 1, 1), "b", (0, 1, 1, 1, 1, 60), False, True),
+        ("three-processors", (1, 1, 2, 1, 1, 1, 1, 1), "sbs", (0, 0, 0, 0, 0, 60), False, False),
         ("ghost-log", (1, 2, 2, 1, 1, 1, 1, 1), "s", (2, 0, 0, 1, 0, 2), True, False),
     ]
     if thorough:
         runs += [
-            ("reference", (2, 3, 2, 1, 1, 1, 1, 1), "sb", (2, 0, 0, 1, 1, 5), False, False),
-            ("events-links-4", (1, 2, 1, 1, 1, 1, 1, 1), "b", (1, 1, 1, 1, 2, 4), False, False),
+            ("reference", (2, 3, 2, 1, 1, 1, 1, 1), "sb", (2, 0, 0, 1, 1, 60), False, False),
+            ("events-links-4", (1, 2, 1, 1, 1, 1, 1, 1), "b", (1, 1, 1, 1, 2, 60), False, False),
             ("ghost-log-3", (1, 2, 2, 1, 1, 1, 1, 1), "s", (2, 0, 0, 1, 0, 3), True, False),
-            ("bsb", (1, 2, 2, 2, 1, 1, 2, 2), "bsb", (1, 0, 0, 1, 0, 4), False, False),
+            ("bsb", (1, 2, 2, 2, 1, 1, 2, 2), "bsb", (1, 0, 0, 1, 0, 60), False, False),
         ]
 
     def one(j):
@@ -122,7 +124,7 @@ def generate(ctx):
     def gen(j):
         src, dom, procs, bounds, view, nxt, invs, init, sim = j
         c = _cfg(ctx, "g-%s.cfg" % src, dom, procs, bounds, hist=True, init=init, nxt=nxt, view=view, invs=invs, props="")
-        return j, tlc.tlc(MODULE, c, rundir=ctx.rundir.path, workers=1 if src == "witness" else 4, timeout_s=1200,
+        return j, tlc.tlc(MODULE, c, rundir=ctx.rundir.path, workers=4 if sim else 1, timeout_s=1200,   # BFS generation: 1 worker = deterministic
                           simulate=sim, seed=(ctx.seed * 31 + 7 + len(procs)) if sim else None, tag="gen-" + src)
     wl = {}
     with cf.ThreadPoolExecutor(max_workers=3) as ex:
